@@ -7,6 +7,7 @@ tvars == <<l>>
 TInit == TraceBaseInit
 TParse == /\ IsEvent("Parse")
           /\ ~Ev.panic /\ ~Ev.leak                              \* total, leaves no goroutine behind
+          /\ ~Ev.both                                           \* an error comes with no query
           /\ LET r == Parse(Ev.s) IN
              /\ Ev.ok = r.ok                                     \* accepts exactly the grammar
              /\ r.ok => (Ev.e = r.e /\ Ev.gb = r.gb)             \* and returns the prescribed tree
